@@ -113,6 +113,9 @@ def gen_linear(rng):
         if rng.random() < .3:
             which = gen.choice(rng, ["prepend", "append"])
             val = int(rng.integers(-2, 3))
+            if rng.random() < .4:
+                # a wider type than the operand's: the result carries the fraction (seeded change C10-7)
+                val = (2 * val + 1) / 2
             kw[which] = val
         impl = lambda p: numpoly.diff(p, n=n, axis=ax, **kw)
         # prepend/append constants are not linear in the operand: handle by the affine part separately
